@@ -54,13 +54,13 @@ _FILE = ["TDims", "TComposed", "TVersions", "TVlr"]
 REQUIRED_UNITS = {
     "C01": _FILE, "C02": ["TDims", "TComposed", "TVersions", "TVlr", "TExtra", "TGeMasks"], "C03": _FILE, "C04": _FILE,
     "C05": _FILE + ["Reader"], "C06": _FILE, "C07": ["TVersions", "TVlr", "Dims"], "C08": ["TVlr", "TExtra"],
-    "C09": ["TDims", "TComposed"], "C10": ["TDims", "TComposed"], "C11": [], "C12": ["TDims", "TComposed", "TVersions", "Dims"],
+    "C09": ["TDims", "TComposed"], "C10": ["TDims", "TComposed", "Views"], "C11": [], "C12": ["TDims", "TComposed", "TVersions", "Dims"],
     "C13": ["TDims", "TExtra"], "C14": ["Compression"], "C15": ["Copc", "TCopc"], "C16": [], "C17": [], "C18": [],
     "C19": _FILE, "C20": ["GE", "TGeMasks"],
 }
 
 
-FUNCTION_UNITS = {"GE", "Compression", "Dims", "Copc", "Reader"}
+FUNCTION_UNITS = {"GE", "Compression", "Dims", "Copc", "Reader", "Views"}
 
 
 class Check:
